@@ -17,6 +17,7 @@
 import AITB.Model.Num
 import AITB.Model.MDP
 import AITB.Gen.Constants
+import AITB.Model.PlanOps
 
 namespace AITB.POMDP
 open AITB.MDP (sumTo maxTo argmaxTo Vec mkVec absR)
@@ -409,5 +410,28 @@ def checkChain (m : Model) (τ : Rat) : List Vec → List (List Vec) → Bool
 def lastOf (prev : List Vec) : List (List Vec) → List Vec
   | [] => prev
   | cur :: rest => lastOf cur rest
+
+/-! ## round 2 -/
+
+/-- the per-action merge of `IncrementalPruning::operator()` run on C04's literal copy of the schedule
+    (`AITB.Plan.mergeSchedule`: front/back/stepsize/diff/elements/oddOld, constants regenerated from the source);
+    `order` only affects the observation links, not the values -/
+def ipActionM (n : Nat) (prune : List Vec → List Vec) (O : Nat) (P : Nat → List Vec) : List Vec :=
+  AITB.Plan.mergeSchedule (fun x y _ => prune (crossSum n x y)) ((List.range O).map (fun o => prune (P o)))
+
+def ipStepM (m : Model) (τ : Rat) (prune : List Vec → List Vec) (Γ : List Vec) : List Vec :=
+  prune (unionTo m.A (fun a => ipActionM m.S prune m.O (projList m τ Γ a)))
+
+def ipIterM (m : Model) (τ : Rat) (prune : List Vec → List Vec) : Nat → List Vec
+  | 0 => [vzero m.S]
+  | h+1 => ipStepM m τ prune (ipIterM m τ prune h)
+
+/-- no observation probability met while expanding the h-step tree below `b` lies in the band (0, τ]:
+    then `checkDifferentSmall(sum, 0.0)` skips exactly the zero-probability observations -/
+def skipFreeB (m : Model) (τ : Rat) : Nat → Vec → Bool
+  | 0 => fun _ => true
+  | h+1 => fun b => allLt m.A (fun a => allLt m.O (fun o =>
+      decide (vsum m.S (updU m b a o) = 0) ||
+      (decide (τ < absR (vsum m.S (updU m b a o))) && skipFreeB m τ h (vdiv m.S (updU m b a o) (vsum m.S (updU m b a o))))))
 
 end AITB.POMDP
